@@ -205,6 +205,15 @@ class PWorld:
         self.globals = {'_match': lambda ctx, s: Matcher(s), '_match_spaces': Matcher('spaces'),
                         '_nth': InlineFn(MOD + ':_nth'), '_ORDINALS': module_constant('_ORDINALS'), '_sp': lambda ctx, *a: SOpaque('str')}
 
+        from pyvc import ops
+
+        def model_set(frozen):
+            def f(ctx, it=()):
+                r = (ops.py_frozenset if frozen else ops.py_set)(ctx, it)
+                return SmallSet((), frozen) if isinstance(r, (set, frozenset)) and not r else r  # an empty set that may later hold symbolic characters
+            return f
+        self.globals.update(set=model_set(False), frozenset=model_set(True))
+
     def fact(self, ctx, name):
         if name not in self.facts:
             self.facts[name] = ctx.bool(name)
